@@ -85,13 +85,15 @@ def showHint (h : Nat × Option Nat) : String :=
 
 def runWdr {S Amp : Type} (parse : String → Option S) (shw : S → String)
     (toAmp : Float → Amp) (mulAmp : S → Amp → S)
-    (kind : Kind) (ch bin hop cap L : Nat) (vals : List String) : String :=
+    (kind : Kind) (ch bin hop cap L : Nat) (rebin : Option (Nat × Nat × Nat)) (vals : List String) : String :=
   if ch = 0 ∨ vals.length ≠ L * ch then "bad-op" else
   match parseAll parse vals with
   | none => "bad-op"
   | some xs =>
     let w : Windower (List S) := ⟨bin, hop, groups ch L xs⟩
-    let obs := iterate cap w
+    let obs := match rebin with
+      | none => iterate cap w
+      | some (k, b2, h2) => iterateRebin cap k b2 h2 w
     " ".intercalate (obs.map fun o =>
       match o.2 with
       | none => s!"{showHint o.1} N"
@@ -103,14 +105,23 @@ def runWdr {S Amp : Type} (parse : String → Option S) (shw : S → String)
 def mulAmpI16 (s : Int16) (a : Float32) : Int16 :=
   (((s.toFloat32 / 32768.0) * a) * 32768.0).toInt16
 
+/-- `<bin>` or `<bin>@<k>:<bin2>:<hop2>` (the public fields reassigned after `k` chunks) -/
+def parseBin (t : String) : Option (Nat × Option (Nat × Nat × Nat)) :=
+  match t.splitOn "@" with
+  | [b] => b.toNat?.map fun b => (b, none)
+  | [b, r] => match b.toNat?, (r.splitOn ":").mapM String.toNat? with
+    | some b, some [k, b2, h2] => some (b, some (k, b2, h2))
+    | _, _ => none
+  | _ => none
+
 def wdrLine : List String → String
   | fmt :: k :: ch :: bin :: hop :: cap :: len :: vals =>
-    match parseKind k, ch.toNat?, bin.toNat?, hop.toNat?, cap.toNat?, len.toNat? with
-    | some kind, some ch, some bin, some hop, some cap, some L =>
+    match parseKind k, ch.toNat?, parseBin bin, hop.toNat?, cap.toNat?, len.toNat? with
+    | some kind, some ch, some (bin, rebin), some hop, some cap, some L =>
       match fmt with
-      | "i16" => runWdr parseI16 (fun (v : Int16) => toString v.toInt) Float.toFloat32 mulAmpI16 kind ch bin hop cap L vals
-      | "f32" => runWdr parseF32 showF32 Float.toFloat32 (fun (s a : Float32) => s * a) kind ch bin hop cap L vals
-      | "f64" => runWdr parseF64 showF64 id (fun (s a : Float) => s * a) kind ch bin hop cap L vals
+      | "i16" => runWdr parseI16 (fun (v : Int16) => toString v.toInt) Float.toFloat32 mulAmpI16 kind ch bin hop cap L rebin vals
+      | "f32" => runWdr parseF32 showF32 Float.toFloat32 (fun (s a : Float32) => s * a) kind ch bin hop cap L rebin vals
+      | "f64" => runWdr parseF64 showF64 id (fun (s a : Float) => s * a) kind ch bin hop cap L rebin vals
       | _ => "bad-op"
     | _, _, _, _, _, _ => "bad-op"
   | _ => "bad-op"
